@@ -78,11 +78,11 @@ def task_region(F, t):
     return nodes, reaches_exit
 
 
-def r02a(ck, prog):
+def r02a(ck, prog, only=None, rule="R02a", floor=12):
     ntasks = 0
     groups = {}
     for F in prog.lib_functions():
-        tasks = list(omp_nodes(F, "task"))
+        tasks = list(omp_nodes(F, "task")) if only is None or F.name in only else []
         if not tasks:
             continue
         for t in tasks:
@@ -90,10 +90,10 @@ def r02a(ck, prog):
             where = site(prog, t, "omp task")
             body = t.child("body")
             nodes, reaches_exit = task_region(F, t)
-            ck.inst("R02a", where, "%s: task %s joined by a taskwait on every path (%d CFG elements in the open region)" % (
+            ck.inst(rule, where, "%s: task %s joined by a taskwait on every path (%d CFG elements in the open region)" % (
                 F.name, body.text()[:50] if body is not None else "?", len(nodes)), prog.config)
             if reaches_exit:
-                ck.violation("R02a", "R02a/%s/unjoined" % F.name, where,
+                ck.violation(rule, rule + "/%s/unjoined" % F.name, where,
                              "a path from the task %s to the end of %s crosses no omp taskwait: the parent continues (and "
                              "returns) while the task may still be writing" % (body.text()[:50] if body is not None else "", F.name),
                              prog.config)
@@ -101,7 +101,7 @@ def r02a(ck, prog):
             for nd in nodes:
                 if "omp" in nd.d:
                     if nd.d["omp"] != "task":
-                        ck.violation("R02a", "R02a/%s/directive" % F.name, site(prog, nd),
+                        ck.violation(rule, rule + "/%s/directive" % F.name, site(prog, nd),
                                      "omp %s between a task and its taskwait" % nd.d["omp"], prog.config)
                     continue
                 if any("omp" in a.d for a in nd.ancestors()):
@@ -117,11 +117,11 @@ def r02a(ck, prog):
                 elif nd.k == "ReturnStmt":
                     bad = "returns"
                 if bad:
-                    ck.violation("R02a", "R02a/%s/use-before-join" % F.name, site(prog, nd),
+                    ck.violation(rule, rule + "/%s/use-before-join" % F.name, site(prog, nd),
                                  "%s %s after spawning the task at %s and before the taskwait: the task's results may not "
                                  "be there yet" % (F.name, bad, where), prog.config)
             groups.setdefault(F.name, []).append((t, [n for n in nodes if n.d.get("omp") == "task"]))
-    ck.floor("R02a", ntasks, 12, "omp task directives")
+    ck.floor(rule, ntasks, floor, "omp task directives")
     return groups
 
 
